@@ -4,7 +4,9 @@ import (
 	"fmt"
 	"sort"
 	"strings"
+	"sync/atomic"
 
+	"github.com/hashicorp/consul/agent/consul"
 	"github.com/hashicorp/consul/agent/structs"
 	"github.com/hashicorp/consul/api"
 	"github.com/hashicorp/consul/internal/verifmc/cmdlib"
@@ -218,6 +220,105 @@ func compareState(u universe, m *Model, w *world.World) (string, string) {
 	return "", ""
 }
 
+// separators for the key listing; with the prefixes of the universe they produce roll-ups where the
+// separator directly follows the prefix, occurs later, occurs twice, and is absent
+var separators = []string{"", "/", "b", "a/"}
+
+// rollup is the statement's "keys": every key under the prefix, cut after the first separator that
+// follows the prefix, each result once, in key order.
+func rollup(m *Model, prefix, sep string) []string {
+	var ks []string
+	for k := range m.D {
+		if strings.HasPrefix(k, prefix) {
+			ks = append(ks, k)
+		}
+	}
+	sort.Strings(ks)
+	var out []string
+	seen := map[string]bool{}
+	for _, k := range ks {
+		r := k
+		if sep != "" {
+			if i := strings.Index(k[len(prefix):], sep); i >= 0 {
+				r = k[:len(prefix)+i+len(sep)]
+			}
+		}
+		if !seen[r] {
+			seen[r] = true
+			out = append(out, r)
+		}
+	}
+	return out
+}
+
+// compareEndpoint reads through the real KVS.Get / KVS.List / KVS.ListKeys RPC endpoints.
+func compareEndpoint(u universe, m *Model, w *world.World) (string, string, int) {
+	ep, err := consul.VerifNewKVS(w.BoundFSM())
+	if err != nil {
+		return "harness", err.Error(), 0
+	}
+	n := 0
+	for _, k := range u.keys {
+		r, err := ep.Get(k)
+		n++
+		if err != nil {
+			return "endpoint-get-error", err.Error(), n
+		}
+		e, ok := m.D[k]
+		switch {
+		case !ok && len(r.Entries) != 0:
+			return "endpoint-get-unexpected", fmt.Sprintf("KVS.Get %q returns an entry, model says absent", k), n
+		case ok && len(r.Entries) != 1:
+			return "endpoint-get-missing", fmt.Sprintf("KVS.Get %q returns %d entries, model has %+v", k, len(r.Entries), e), n
+		case ok:
+			if msg := cmpEnt("KVS.Get", k, e, r.Entries[0], true); msg != "" {
+				return "endpoint-get-field=" + field(msg), msg, n
+			}
+			if r.Index != e.Modify {
+				return "endpoint-get-index", fmt.Sprintf("KVS.Get %q reports index %d, the key's modify index is %d", k, r.Index, e.Modify), n
+			}
+		}
+	}
+	for _, p := range u.prefixes {
+		r, err := ep.List(p)
+		n++
+		if err != nil {
+			return "endpoint-list-error", err.Error(), n
+		}
+		want := rollup(m, p, "")
+		var got []string
+		for _, d := range r.Entries {
+			got = append(got, d.Key)
+		}
+		if strings.Join(got, "\x00") != strings.Join(want, "\x00") {
+			return "endpoint-list-keys", fmt.Sprintf("KVS.List %q = %q, model %q", p, got, want), n
+		}
+		for _, d := range r.Entries {
+			if msg := cmpEnt("KVS.List "+p, d.Key, m.D[d.Key], d, true); msg != "" {
+				return "endpoint-list-field=" + field(msg), msg, n
+			}
+		}
+		if r.Index == 0 {
+			return "endpoint-list-index-zero", fmt.Sprintf("KVS.List %q reports index 0", p), n
+		}
+		for _, sep := range separators {
+			kr, err := ep.ListKeys(p, sep)
+			n++
+			if err != nil {
+				return "endpoint-keys-error", err.Error(), n
+			}
+			want := rollup(m, p, sep)
+			if strings.Join(kr.Keys, "\x00") != strings.Join(want, "\x00") {
+				return "endpoint-keys", fmt.Sprintf("KVS.ListKeys prefix %q separator %q = %q, model %q", p, sep, kr.Keys, want), n
+			}
+			if kr.Index != r.Index {
+				return "endpoint-keys-index", fmt.Sprintf("KVS.ListKeys prefix %q separator %q reports index %d, KVS.List of the same prefix %d", p, sep, kr.Index, r.Index), n
+			}
+		}
+	}
+	return "", "", n
+}
+
 func compareResult(m *Model, w *world.World, res string) (string, string) {
 	ex := m.Expect
 	switch ex.Kind {
@@ -337,6 +438,7 @@ func Run(c *ev.Ctx) {
 	if !quick {
 		depth = 4
 	}
+	var endpointReads int64
 	cfg := &e1.Config{
 		Ctx: c, Seeds: seeds, Alphabet: alpha, MaxDepth: depth, AuditMerges: 200,
 		New:      func() *world.World { w := world.New(); w.Aux = NewModel(); return w },
@@ -353,6 +455,14 @@ func Run(c *ev.Ctx) {
 			}
 			if cls, msg := compareState(u, m, t.W); cls != "" {
 				t.Violate("C03:state:"+cls+":last="+t.Op.Kind, msg)
+				return
+			}
+			cls, msg, n := compareEndpoint(u, m, t.W)
+			atomic.AddInt64(&endpointReads, int64(n))
+			if cls == "harness" {
+				c.HarnessError("KVS endpoint: " + msg)
+			} else if cls != "" {
+				t.Violate("C03:"+cls+":last="+t.Op.Kind, msg)
 			}
 		},
 		MaxStates: 400000,
@@ -365,7 +475,9 @@ func Run(c *ev.Ctx) {
 	c.Set("alphabet_size", len(alpha))
 	c.Set("seeds", len(seeds))
 	c.Set("keys", u.keys)
-	c.Set("rule", "every op sequence up to max_depth from each seed over the alphabet; states deduplicated on the rank-compressed 36-table dump; each transition compared with the reference map (result, get for every key, list for every prefix)")
+	c.Set("endpoint_reads", atomic.LoadInt64(&endpointReads))
+	c.Set("endpoint_separators", separators)
+	c.Set("rule", "every op sequence up to max_depth from each seed over the alphabet; states deduplicated on the rank-compressed 36-table dump; each transition compared with the reference map (result, store get for every key, store list for every prefix, and the RPC endpoints KVS.Get / KVS.List / KVS.ListKeys for every key, prefix and separator, run on a Server object holding this state)")
 	c.Sample(map[string]any{"seed0": names(seeds[1]), "alphabet_excerpt": names(alpha[:8]), "txn_excerpt": names(alpha[len(alpha)-5:])})
 	c.Assume("the reference map in /verif/harness/c03/model.go encodes the statement; where the statement is silent it follows upstream behaviour (plain set stores lock counter 0; delete-cas of an absent key reports success)")
 }
